@@ -101,6 +101,9 @@ BROAD_MODES = {
     "hard_inc_amt1_ndirs0": ({"up": dict(_H, **{"restarts.increase_npt": True, "restarts.max_npt_plus": 2,
                                                 "restarts.hard.increase_ndirs_initial_amt": 0})}, {"random"}),
     "hard_mu1_bounds": (dict(_BOX2, up=dict(_H, **{"restarts.max_unsuccessful_restarts": 1})), set()),
+    # restarts.max_npt has no documented upper limit: beyond (n+1)(n+2)/2 a hard restart cannot initialise a run (finding 34)
+    "hard_inc_max_npt_large": ({"npt": 5, "up": dict(_H, **{"restarts.increase_npt": True, "restarts.max_npt_plus": 4})}, set()),
+    "soft_inc_max_npt_large": ({"npt": 5, "up": dict(_R, **{"restarts.increase_npt": True, "restarts.max_npt_plus": 4})}, {"random"}),
     "hard_autodetect_short": ({"up": dict(_H, **{"restarts.auto_detect.history": 3, "restarts.auto_detect.min_chgJ_slope": 0.0,
                                                  "restarts.auto_detect.min_correl": 0.0}), "noise_amp": 0.3, "memo": False,
                                "objfun_has_noise": True}, {"noisy"}),
